@@ -159,6 +159,7 @@ type Machine struct {
 	stack      []string
 	writes       []writeRec
 	writeLogOn   bool
+	watchGlobals bool
 	changedWhere []string
 
 	writeHook func(c *Cell, old, new Value)
@@ -253,6 +254,7 @@ func (m *Machine) RunPath(h *ssa.Function, prefix []int) (res PathResult, pendin
 	m.curDeferFrame, m.permuteMaps, m.clockReads = nil, false, nil
 	m.stack = m.stack[:0]
 	m.writes, m.writeLogOn, m.changedWhere, m.writeHook = nil, false, nil, nil
+	m.watchGlobals = false
 	m.Harness = h.Name()
 
 	func() {
@@ -344,6 +346,12 @@ func (m *Machine) global(g *ssa.Global) *Cell {
 	c := m.newCell(g.Type().(*types.Pointer).Elem())
 	c.Tag = "global:" + g.String()
 	m.globals[g] = c
+	if m.watchGlobals && g.Pkg != nil {
+		path := g.Pkg.Pkg.Path()
+		if m.P.InitPkgs[path] && !strings.HasPrefix(path, m.P.ApiPath) {
+			m.colourCell(c, "$global", map[*Cell]bool{})
+		}
+	}
 	if g.Pkg != nil && !m.inited[g.Pkg] {
 		path := g.Pkg.Pkg.Path()
 		if m.P.LazyInit[path] || m.P.InitPkgs[path] {
